@@ -5,6 +5,7 @@ import (
 	"errors"
 	"fmt"
 	"math/rand"
+	"regexp"
 	"sort"
 	"strings"
 
@@ -211,8 +212,9 @@ func checkTypeSystem(c *core.Ctx, orderProp bool) {
 	infos := map[int]*info{}
 	var nontrivial int64
 	id := 0
-	var handInvolved []string // with handItems: the names of the definitions involved in the list's single violation
-	var handItems []SDLItem   // when set: a hand-written list of definitions whose order must not matter
+	var handSources []*ast.Source // when set: the sources of the case exactly as given (names, built-in flags)
+	var handInvolved []string     // with handItems: the names of the definitions involved in the list's single violation
+	var handItems []SDLItem       // when set: a hand-written list of definitions whose order must not matter
 	addCase := func(doc *ASDoc, fault *SchemaFault, handText string) {
 		var items []SDLItem
 		if doc != nil {
@@ -235,12 +237,21 @@ func checkTypeSystem(c *core.Ctx, orderProp bool) {
 			base.WriteString("\n")
 		}
 		v0 := tsVariant{Sources: []*ast.Source{{Name: "schema.graphql", Input: base.String()}}, Files: []string{}}
+		if handSources != nil {
+			v0.Sources = handSources // a hand-written LIST of sources, flags and all
+		}
 		if fault != nil || (handItems != nil && handInvolved != nil) {
 			v0.Files = []string{"schema.graphql"}
 		}
 		variants = append(variants, v0)
 		for p := 0; p < nperm && (doc != nil || handItems != nil); p++ {
 			variants = append(variants, permuteItems(items, rng, inv))
+		}
+		if doc == nil && handItems == nil && fault == nil && !redeclaresSpecified.MatchString(base.String()) {
+			// a hand-written text: the same source twice more, loaded with the prelude last and in the middle (not when
+			// it declares a specified directive again: of two declarations the LATER is in force, by design, so there
+			// the place of the prelude is part of the meaning)
+			variants = append(variants, v0, v0)
 		}
 		// a built-in type that is involved has its base definition in the prelude: naming that file is right too
 		for _, n := range inv {
@@ -268,8 +279,10 @@ func checkTypeSystem(c *core.Ctx, orderProp bool) {
 		}
 		inf := &info{sdl: base.String(), fault: fault, variants: variants}
 		for vi, v := range variants {
+			// (the built-in prelude first, last or in the middle: in C17 for every case, in C07 for the hand-written
+			// type systems, several of which redeclare or extend built-in definitions)
 			pp := 0
-			if orderProp {
+			if orderProp || (doc == nil && fault == nil) {
 				pp = vi % 3
 			}
 			l, _, crash := loadRealAt(v.Sources, pp)
@@ -332,6 +345,27 @@ func checkTypeSystem(c *core.Ctx, orderProp bool) {
 		for _, t := range handSchemas {
 			addCase(nil, nil, t)
 		}
+		// lists of sources some of which are flagged built-in (a server's own prelude next to the library's): the flag
+		// marks definitions, it licenses nothing
+		for _, hs := range [][]*ast.Source{
+			{{Name: "server.graphql", BuiltIn: true, Input: "directive @tag on ENUM"}, {Name: "user.graphql", Input: "directive @tag on OBJECT type Query @tag { a: Int }"}},
+			{{Name: "server.graphql", BuiltIn: true, Input: "directive @tag on OBJECT scalar Date"}, {Name: "user.graphql", Input: "type Query @tag { a: Date }"}},
+			{{Name: "server.graphql", BuiltIn: true, Input: "scalar Date"}, {Name: "user.graphql", Input: "scalar Date type Query { a: Date }"}},
+			{{Name: "user.graphql", Input: "type Query { a: Date } directive @skip(if: Boolean!, why: String) on FIELD"}, {Name: "server.graphql", BuiltIn: true, Input: "scalar Date extend type Query { b: Int }"}},
+			{{Name: "server.graphql", BuiltIn: true, Input: "type __Mine { x: Int } type Query { m: __Mine }"}},
+		} {
+			handSources = hs
+			var all strings.Builder
+			for _, s := range hs {
+				all.WriteString(s.Input + "\n")
+			}
+			if handSet == nil {
+				isHand("")
+			}
+			handSet[strings.TrimSpace(all.String())] = true
+			addCase(nil, nil, all.String())
+		}
+		handSources = nil
 		// small scope: every combination of up to 3 (quick) / 4 (thorough) blocks
 		k := 3
 		if c.Thorough() {
@@ -411,6 +445,8 @@ func checkTypeSystem(c *core.Ctx, orderProp bool) {
 		c.Diagnostic("generator intent disagrees with specification AND loader on %d cases (see intent_* in the evidence): the generator is the weakest of the three witnesses, so this is no verdict", intentBad)
 	}
 }
+
+var redeclaresSpecified = regexp.MustCompile(`directive\s+@(include|skip|deprecated|specifiedBy|defer|oneOf)\b`)
 
 var handSet map[string]bool
 
@@ -579,6 +615,10 @@ func smallTypeSystems(k int) []string {
 }
 
 var handSchemas = []string{
+	// an implementer whose field has FEWER list wrappers than the interface declares (and more)
+	"interface I { tags: [String] } type T implements I { tags: String } type Query { t: T }", "interface I { m: [[Int!]]! } type T implements I { m: [Int!]! } type Query { t: T }",
+	"interface I { tags: [String] } interface J implements I { tags: String } type T implements J & I { tags: String } type Query { t: T }", "interface I { tags: String } type T implements I { tags: [String] } type Query { t: T }",
+	"interface I { n: [Node] } interface Node { id: ID } type N implements Node { id: ID } type T implements I { n: N } type Query { t: T }",
 	// type-level directives on extensions of BUILT-IN types are checked like any other: undefined, misplaced,
 	// lacking a required argument, with an unknown argument; and the well-formed ones load
 	"extend scalar String @nope type Query { a: String }", "extend scalar ID @specifiedBy type Query { a: ID }", "directive @onField on FIELD extend type __Type @onField type Query { a: Int }",
